@@ -7,7 +7,7 @@ from typing import Dict, List, Optional
 
 from engine import AnalysisError
 from engine.srcmodel import walk_shallow, norm, parent, ancestors
-from engine.util import call_name, contains, fstring_template, alias_is_stable
+from engine.util import call_name, contains, fstring_template, alias_is_stable, inline_helper_call
 from engine.cfg import stmt_of
 from engine.inline import inlined
 from engine.dataflow import assigned_value, target_names
@@ -187,6 +187,11 @@ def _ndim_test(test: ast.AST, arr: str) -> Optional[bool]:
 def _is_col_count(ctx, f, e, arr: str) -> bool:
     """`inp.shape[-1] if inp.ndim > 1 else 1` (or inp.shape[-1] / inp.shape[1])."""
     e = resolve_local(ctx, f, e)
+    if isinstance(e, ast.Call):
+        # the count may be computed by a one-expression helper (`n = _columns(inp)`): look at the expression it returns
+        body = inline_helper_call(ctx, f, e)
+        if body is not None:
+            e = body
 
     def last_dim(x):
         return isinstance(x, ast.Subscript) and isinstance(x.value, ast.Attribute) and x.value.attr == "shape" \
@@ -435,6 +440,7 @@ def r2_column_to_node(ctx, rid):
         site = sites["source_idx"]
         found = None
         other_len = None
+        undecided = None
         for anc in ancestors(site):
             if isinstance(anc, ast.If):
                 if any(contains(x, site) for x in anc.body):
@@ -458,10 +464,16 @@ def r2_column_to_node(ctx, rid):
                 if isinstance(c, ast.Compare) and len(c.ops) == 1:
                     for a_, b_ in ((c.left, c.comparators[0]), (c.comparators[0], c.left)):
                         if isinstance(a_, ast.Call) and call_name(a_) == "len" and len(a_.args) == 1:
-                            if is_target_list(a_.args[0]) and _is_col_count(ctx, f, b_, inp_param):
-                                found = c
+                            if is_target_list(a_.args[0], note=False):
+                                if _is_col_count(ctx, f, b_, inp_param):
+                                    found = c
+                                else:
+                                    undecided = c
                             else:
                                 other_len = c
+        if found is None and undecided is not None:
+            raise AnalysisError(f"{rid}: cannot tell whether `{norm(undecided)}` compares the node list with the number of input columns "
+                                f"(unrecognised form of the column count)")
         if found is not None:
             ctx.ok(rid, f, rec, "per-column wiring only happens when the column count equals the length of the same node list",
                    {"guard": norm(found)}, label=f"{tag}: guard")
